@@ -20,7 +20,7 @@
 #ifndef TBOX_COROUTINE_MUTEX_HPP_20180527
 #define TBOX_COROUTINE_MUTEX_HPP_20180527
 
-#include <queue>
+#include <deque>
 #include "scheduler.h"
 
 namespace tbox {
@@ -43,19 +43,24 @@ class Mutex {
     //! 请求资源，注意：只能是协程调用
     //! 不建议直接使用，优先使用 Mutex::Locker 替代
     bool lock() {
-        if (!hold_token_.isNull()) {      //! 如果没有资源，则等待
-            if (hold_token_.equal(sch_.getToken())) //! 如果就是自己占用的，就直接返回
-                return true;
+        RoutineToken self = sch_.getToken();
+        if (hold_token_.equal(self))    //! 如果就是自己占用的，就直接返回
+            return true;
 
-            wait_tokens_.push(sch_.getToken());
-            do {
-                sch_.wait();
-                if (sch_.isCanceled())
-                    return false;
-            } while (!hold_token_.isNull());
+        //! 如果没有资源，则等待。每次进入等待前都重新登记，醒来后注销
+        while (!hold_token_.isNull()) {
+            wait_tokens_.push_back(self);
+            sch_.wait();
+            removeWaitToken(self);
+            if (sch_.isCanceled()) {
+                //! 自己被取消了，如果锁是空闲的，要把唤醒机会让给其它等待者
+                if (hold_token_.isNull())
+                    wakeOne();
+                return false;
+            }
         }
 
-        hold_token_ = sch_.getToken();
+        hold_token_ = self;
         return true;
     }
 
@@ -66,19 +71,33 @@ class Mutex {
             return;
 
         hold_token_.reset();
-
-        if (!wait_tokens_.empty()) {
-            auto t = wait_tokens_.front();
-            wait_tokens_.pop();
-            sch_.resume(t);
-        }
+        wakeOne();
     }
 
   private:
     Scheduler &sch_;
 
+    //! 唤醒最早的一个还能被唤醒的等待者
+    void wakeOne() {
+        while (!wait_tokens_.empty()) {
+            RoutineToken t = wait_tokens_.front();
+            wait_tokens_.pop_front();
+            if (sch_.resume(t))
+                break;
+        }
+    }
+
+    void removeWaitToken(const RoutineToken &t) {
+        for (auto it = wait_tokens_.begin(); it != wait_tokens_.end(); ++it) {
+            if (it->equal(t)) {
+                wait_tokens_.erase(it);
+                break;
+            }
+        }
+    }
+
     RoutineToken hold_token_;
-    std::queue<RoutineToken> wait_tokens_;
+    std::deque<RoutineToken> wait_tokens_;
 };
 
 }
